@@ -657,6 +657,7 @@ func runC14(c *fw.Ctx) {
 	// histories: a tree goes through rounds of mutations (methods, nested in place, tree-form writes with padding, one
 	// container instance stored at several places); after every round every list and object of the tree shows all its views
 	historyCases(c, "history", 300, 30000, probeViews)
+	c.Cases("embedded-values", c.N(60, 6000), false, func(i int, r *rng.R) { c14Embedded(c, r) })
 	c.Cases("containers", c.N(2000, 1000000), false, func(i int, r *rng.R) {
 		// several elements of each kind interleaved, none of a kind, neighbours of look-alike kinds, empty
 		root := spec.List
@@ -1515,4 +1516,84 @@ func probeViews(p *prog, root *model.Node, round int) {
 	if d := p.h.CheckAll(); d != "" {
 		p.failProbe("views-modify-container", "tree unchanged after the views were taken", d)
 	}
+}
+
+// c14Embedded: elements / fields stored through a value embedded in a derived structure (`l.Add(d.Object)`): Get resolves
+// the registered pointer, and the UNTYPED views are stated to hand over "the value Get returns". (The typed views hand
+// over the stored value on the unchanged tree; C14 only says which elements they operate on, so they are not judged here.)
+func c14Embedded(c *fw.Ctx, r *rng.R) {
+	eo, el, late := NewDObject("emb", 1), NewDDList(1, 2), at.NewObject("late", true)
+	vals := []any{0, eo.Object, "s", el.DList, nil, el.DList.List, 2.5, late, NewDList("plainly derived")}
+	shuffled := make([]any, len(vals))
+	for j, pj := range r.Perm(len(vals)) {
+		shuffled[j] = vals[pj]
+	}
+	vals = shuffled
+	l := at.NewList(vals...)
+	o := at.NewObject()
+	for j, v := range vals {
+		o.Set(fmt.Sprintf("k%d", j), v)
+	}
+	wl := &DObject{Object: late, tag: "late"}
+	late.Init(wl) // wrapped into a derived structure after it was stored
+	in := func() string {
+		return "a list / an object holding, next to scalars, d.Object (embedded in a DObject), d.DList and d.DList.List (embedded in a DDList), an object wrapped into a derived structure after it was stored, a DList"
+	}
+	guard(c, in, func() {
+		c.Distinct(fmt.Sprintf("embedded %v", vals))
+		n := l.Count()
+		judgeL := func(view string, idx int, v any) {
+			c.Count("views_checked")
+			if idx < 0 || idx >= n || !eqSlot(v, l.Get(idx)) {
+				got := fmt.Sprintf("%T", v)
+				c.Violate("view-wrong:"+view, in(), fmt.Sprintf("the value Get(%d) returns (%T)", idx, l.Get(idx%maxInt(n, 1))), got)
+			}
+		}
+		l.ForEach(func(i int, v any) { judgeL("ForEach", i, v) })
+		k := 0
+		l.ForEachValue(func(v any) { judgeL("ForEachValue", k, v); k++ })
+		l.Map(func(i int, v any) any { judgeL("Map", i, v); return nil })
+		k = 0
+		l.MapValues(func(v any) any { judgeL("MapValues", k, v); k++; return nil })
+		k = 0
+		l.Filter(func(v any) bool { judgeL("Filter", k, v); k++; return true })
+		k = 0
+		l.Reduce(nil, func(acc, v any) any { judgeL("Reduce", k, v); k++; return acc })
+		for i, v := range l.Slice() {
+			judgeL("Slice", i, v)
+		}
+		judgeO := func(view string, key string, v any) {
+			c.Count("views_checked")
+			if !o.KeyExists(key) || !eqSlot(v, o.Get(key)) {
+				c.Violate("view-wrong:Object."+view, in(), fmt.Sprintf("the value Get(%q) returns", key), fmt.Sprintf("%T", v))
+			}
+		}
+		o.ForEach(func(key string, v any) { judgeO("ForEach", key, v) })
+		o.Map(func(key string, v any) any { judgeO("Map", key, v); return nil })
+		for key, v := range o.Dict() {
+			judgeO("Dict", key, v)
+		}
+		// the values the keyless views hand over are, as a multiset, what Get returns
+		seen := map[string]int{}
+		o.ForEachValue(func(v any) { seen[fmt.Sprintf("%T %p", v, v)]++ })
+		o.MapValues(func(v any) any { seen[fmt.Sprintf("%T %p", v, v)]--; return nil })
+		want := map[string]int{}
+		for j := range vals {
+			v := o.Get(fmt.Sprintf("k%d", j))
+			want[fmt.Sprintf("%T %p", v, v)]++
+		}
+		o.ForEachValue(func(v any) { want[fmt.Sprintf("%T %p", v, v)]-- })
+		for key, cnt := range want {
+			if cnt != 0 && !strings.HasPrefix(key, "int") && !strings.HasPrefix(key, "string") && !strings.HasPrefix(key, "float") && !strings.HasPrefix(key, "<nil>") {
+				c.Violate("view-wrong:Object.ForEachValue", in(), "the values Get returns, each once", "a value of another identity: "+key)
+				break
+			}
+		}
+		for key, cnt := range seen {
+			if cnt != 0 {
+				c.Violate("view-wrong:Object.MapValues", in(), "the same values as ForEachValue", key)
+				break
+			}
+		}
+	})
 }
